@@ -920,8 +920,11 @@ def inflight_cases(jobs):
             K3 = type("K3", (K2,), {"__module__": "vfworld"})
             K4 = type("K4", (), {"__module__": "vfworld"})
             state = {"armed": False}
-            ns = {"LOG": log, "K2": K2, "K3": K3, "K4": K4, "recurse": recurse, "STATE": state, "TARGET": K3(), "__name__": "vfworld"}
-            again = "recurse(TARGET)" if job["via"] == "recurse" else "f(TARGET)"
+            from ovld import call_next
+
+            ns = {"LOG": log, "K2": K2, "K3": K3, "K4": K4, "recurse": recurse, "call_next": call_next, "STATE": state, "TARGET": K3(),
+                  "__name__": "vfworld"}
+            again = {"recurse": "recurse(TARGET)", "name": "f(TARGET)", "next": "call_next(x)"}[job["via"]]
             src = (
                 "def f(x: K4):\n    LOG.append('fb')\n    if STATE['armed']:\n        STATE['armed'] = False\n"
                 "        STATE['change']()\n        LOG.append('>split')\n        return " + again + "\n    return 'fb'\n"
@@ -964,6 +967,13 @@ def inflight_cases(jobs):
             after = log[log.index(">split") + 1:] if ">split" in log else None
             call = {"pos": [{"c": 3}], "kwn": [], "kwa": []}
             ent = [{"m": mid, "call": call, "next": {"has": False, "call": {"pos": [], "kwn": [], "kwa": []}}} for mid in (after or [])]
+            if job["via"] == "next":
+                # the running activation delegates with the arguments it received: the chain continues below it,
+                # over the method set after the change
+                call = {"pos": [{"c": 4}], "kwn": [], "kwa": []}
+                for e in ent:
+                    e["call"] = call
+                ent = [{"m": "fb", "call": call, "next": {"has": True, "call": call}}] + ent
             obs["entered"] = ent
             ids = ["fb", "m1"] + (["m2"] if job["change"] == "register" else [])
             if job["mode"] != "plain":
